@@ -216,6 +216,7 @@ def run_monitors(cfg, items, endl, props=None):
                                  "use count of %d is %d, the history gives %d" % (k, v[1], cnt[k][0]))
             continue
         # ---- an operation ----
+        pre_fresh = not op_since_probe      # the last probe describes the state this call starts from
         op_since_probe = True
         step += 1
         n = it["name"]
@@ -387,6 +388,14 @@ def run_monitors(cfg, items, endl, props=None):
             res = parse_list(o)
             if [k for k, _ in res] != it["keys"]:
                 viol("C18", i, "%s returned keys %s for input %s" % (n, [k for k, _ in res], it["keys"]))
+            if pre is not None and pre_fresh:
+                # C18: a range lookup is its single lookups in order; a lookup never changes whether or with which value a
+                # key is found at the same instant, so every position must agree with the side-effect-free view taken
+                # just before the call (duplicates included)
+                for k, v in res:
+                    if k in pre["view"] and vonly(pre["view"].get(k)) != vonly(v):
+                        viol("C18", i, "%s reports %d=%s but the single lookup of that key at the same instant gives %s" % (
+                            n, k, v, pre["view"].get(k)))
             for k, v in res:
                 check_hit(i, k, v, now, n)
                 if v is not None and not it["peek"]:
